@@ -653,7 +653,11 @@ def rule_k1_k2(prog: Program, col: Collector) -> None:
                 Ts = ("bin", "-", U, Ss)
                 Ts2 = ("bin", "^", U, Ss)
                 lhs_opts = [("bin", "+", vS, ("index", values, x)) for x in (Ts, Ts2)] + [("bin", "+", ("index", values, x), vS) for x in (Ts, Ts2)]
-                parts = list(c[2]) if is_call_to(c, "numpy.logical_or") else [c]
+                def disjuncts(x):
+                    if x[0] == "bin" and x[1] == "|":            # np.logical_or(a, b) is recorded as a | b
+                        return disjuncts(x[2]) + disjuncts(x[3])
+                    return [x]
+                parts = disjuncts(c)
                 exact = [p for p in parts if p[0] == "cmp"]
                 close = [p for p in parts if is_call_to(p, "numpy.isclose")]
                 ok_exact = any((p[1] == "<=" and p[2] in lhs_opts and p[3] == vU) or (p[1] == ">=" and p[3] in lhs_opts and p[2] == vU) for p in exact)
